@@ -98,6 +98,15 @@ def rename_history(rng, x):
             OLD_VALUES.append(old)
         except ValueError:
             pass
+    if x.name and "EDIF.identifier" in x and rng.random() < 0.12:
+        # the identifier is taken away again (pop or del): the element must still answer to its name
+        try:
+            if rng.random() < 0.5:
+                x.pop("EDIF.identifier")
+            else:
+                del x["EDIF.identifier"]
+        except ValueError:
+            pass
     if x.name and rng.random() < 0.2:
         final = x.name
         old = "was_%s_%d" % (final[:6], rng.randrange(1000))
